@@ -817,6 +817,7 @@ func genC18(seed uint64, tier string, outdir string) *Report {
 		"compared across executions: verdict, error string, response bytes, complete event list in order, validator-update list in order, sha256 of the raw key/value dump of every mounted store after every operation",
 		"not shown by this technique: dependence on wall-clock, randomness or process history is only sampled by repetition inside one process")
 	genC18Oracle(rep, seed, tier, R, &id)
+	genC18Genesis(rep, seed, tier, R, &id)
 	writeShards(outdir, "C18l1", l1CaseHeader, "run_l1case", "l1case", l1Texts, 8, rep)
 	writeShards(outdir, "C18l2", l2CaseHeader, "run_l2case", "l2case", l2Texts, 8, rep)
 	return rep
